@@ -227,6 +227,10 @@ func (m *FlowMon) onReturn(c *eng.Ctx, s flowState, ev *eng.Event, T *eng.Term) 
 		ck("C10.R3,C03.R9", "success-return", okVal, "a finished flow must hand back the action of the last node it ran (boxed as Action), got "+val.Pretty())
 	case eng.TriFalse:
 		switch {
+		case s.n > 0 && knownNonNil(c, s.prevErr):
+			// a failed node's error is what the flow reports, whether or not the context was seen
+			// cancelled afterwards
+			ck("C04.R4", "error-return", err.Unwraps(s.prevErr), "the flow's error "+err.Pretty()+" does not wrap the failing node's error "+s.prevErr.Pretty())
 		case s.cutAny:
 			found := false
 			for _, l := range err.WrapLeaves() {
@@ -235,8 +239,6 @@ func (m *FlowMon) onReturn(c *eng.Ctx, s flowState, ev *eng.Event, T *eng.Term) 
 				}
 			}
 			ck("C05.R2", "cancel-return", found, "a flow cut short by cancellation must return an error wrapping ctx.Err(), got "+err.Pretty())
-		case s.n > 0 && knownNonNil(c, s.prevErr):
-			ck("C04.R4", "error-return", err.Unwraps(s.prevErr), "the flow's error "+err.Pretty()+" does not wrap the failing node's error "+s.prevErr.Pretty())
 		case s.n == 0:
 			// configuration errors before any node ran (bad prep value, no start node)
 			badPrep := c.Eval(eng.TAOk(m.PrepV, types.NewPointer(m.R.SharedStore))) == eng.TriFalse
